@@ -21,8 +21,18 @@ META = {
 }
 
 
+def big_rings(ctx):
+    """long feedback paths: a ring of k gates (the search for back edges must not depend on the length of a path)"""
+    from cgv.net import mkspec
+    out = []
+    for k in ((600,) if ctx.quick else (300, 600, 1500)):
+        nodes = [("en", "input", [])] + [(f"r{j}", "and" if j == 0 else "buf", ([f"r{k - 1}", "en"] if j == 0 else [f"r{j - 1}"]), j == k // 2) for j in range(k)]
+        out.append((("ring", k), mkspec(f"ring{k}", nodes)))
+    return out
+
+
 def all_cases(ctx):
-    return F.f_cyc() + F.renamed(F.f_cyc(), "acyc") + F.renamed(F.f_cyc(), "acyc2") + F.f_rand_cyc(ctx.seed, 50 if ctx.quick else 500)
+    return big_rings(ctx) + F.f_cyc() + F.renamed(F.f_cyc(), "acyc") + F.renamed(F.f_cyc(), "acyc2") + F.f_rand_cyc(ctx.seed, 50 if ctx.quick else 500)
 
 
 def run(ctx):
